@@ -37,7 +37,9 @@ VALUES = {
     'sign': ['positive', 'non-negative', 'zero', 'non-positive', 'negative', 'null', None],
     'max_nulls': [0, 1, 5, None],
     'no_duplicates': [True, False, None],
-    'allowed_values': [['a'], ['a', 'é£', "it's", 'say "x"', 'back\\slash', ''], [], None],
+    'allowed_values': [['a'], ['a', 'é£', "it's", 'say "x"', 'back\\slash', ''], [], None,
+                       # characters str.splitlines() treats as line ends but JSON leaves raw; trailing blanks
+                       ['x\x85y', 'p\u2028q', 'r\u2029', 'tab\tend ', 'nl\nmid', 'trail  ', '\x0b\x0c\x1c']],
     'rex': [[r'^\d+$'], [r'^[A-Z]{2}\-\d+$', r'^"q"$', r"^it's$", r'^a\\b$', '^é+$'], []],
 }
 DATE_VALUES = {
@@ -45,7 +47,7 @@ DATE_VALUES = {
             '2020/02/29', None, {'value': '2020-01-01 00:00:00', 'precision': 'closed'}],
     'max': ['2038-01-19 03:14:07', '2021-06-15 12:30:00.5', None],
 }
-NAMES = ['a', 'field one', 'é£', 'a"b', "o'k", 'x\\y', '#notacomment', '1']
+NAMES = ['a', 'field one', 'é£', 'a"b', "o'k", 'x\\y', '#notacomment', '1', 'n\x85l', 'ls\u2028']
 EXTRAS = [{}, {'#comment': 'free text'}, {'frobnicate': 3}, {'#c': [1, 2], 'zzz_unknown': {'a': 1}}]
 
 
@@ -272,3 +274,60 @@ def run(props, tier, seed):
     finally:
         shutil.rmtree(tmpdir, ignore_errors=True)
     return b
+
+
+# ---------------------------------------------------------------------------
+# get_date(str(d)) == d: every microsecond value, every calendar field value
+# (complete enumeration of each field's domain; replaces the assumption that
+# str(datetime) is the layout get_date parses)
+# ---------------------------------------------------------------------------
+
+def _date_chunk(args):
+    lo, hi = args
+    from tdda.constraints.base import get_date
+    bad = []
+    n = 0
+    for u in range(lo, hi):
+        d = datetime.datetime(2001, 2, 3, 4, 5, 6, u)
+        for form, text in (('str', str(d)), ('isoformat', d.isoformat())):
+            n += 1
+            try:
+                got = get_date(text)
+            except Exception as e:      # noqa
+                got = 'raised %s' % type(e).__name__
+            if got != d:
+                bad.append({'text': text, 'form': form, 'got': repr(got), 'expected': repr(d)})
+                if len(bad) > 20:
+                    return n, bad
+    return n, bad
+
+
+def date_text_roundtrip(procs=16):
+    import multiprocessing
+    from tdda.constraints.base import get_date
+    step = 1000000 // 64
+    jobs = [(lo, min(lo + step, 1000000)) for lo in range(0, 1000000, step)]
+    n, bad = 0, []
+    with multiprocessing.get_context('fork').Pool(procs) as pool:
+        for k, b in pool.imap_unordered(_date_chunk, jobs):
+            n += k
+            bad.extend(b)
+    fields = []
+    for m in range(1, 13):
+        for dd in range(1, 32):
+            try:
+                fields.append(datetime.datetime(2000, m, dd, 23, 59, 58, 999999))
+            except ValueError:
+                pass
+    fields += [datetime.datetime(2020, 1, 1, h, 0, 0) for h in range(24)]
+    fields += [datetime.datetime(2020, 1, 1, 0, mi, 0) for mi in range(60)]
+    fields += [datetime.datetime(2020, 1, 1, 0, 0, s) for s in range(60)]
+    fields += [datetime.datetime(y, 12, 31, 1, 2, 3, 40) for y in (1, 99, 999, 1000, 1582, 1900, 1970, 2038, 9999)]
+    for d in fields:
+        for text, want in ((str(d), d), (d.isoformat(), d),
+                           (str(d.date()), datetime.datetime.combine(d.date(), datetime.time()))):
+            n += 1
+            got = get_date(text)
+            if got != want:
+                bad.append({'text': text, 'got': repr(got), 'expected': repr(want)})
+    return n, bad
